@@ -315,44 +315,7 @@ func rulesC06(e *Engine, r *Report) {
 
 	// ---------------------------------------------------------------- R06.6
 	r.Rule("R06.6", "no request during recovery: Recover clears readiness before anything else, keeps it cleared across every step (walk, cache refill, state changes, hand-over to validators, waiting for them) and restores it only by the deferred call; it returns only after the validation workers it started have finished")
-	if fn := needFn(e, r, "R06.6", "stage.(*Stage).Recover"); fn != nil {
-		cls := labeler(
-			I("call(stage.(*Stage).setCanReceive)(p0, false)", "notReady"),
-			IK("call(stage.(*Stage).setCanReceive)(p0, true)", "notReady"),
-			I("defer call(stage.(*Stage).setCanReceive)(p0, true)", "restoreDeferred"),
-			I("go call(stage.(*Stage).Recover$§)(§)", "workers"),
-			I("call(sync.(*WaitGroup).Wait)(§)", "waited"),
-		)
-		isStep := func(in ssa.Instruction) bool {
-			if !hasEffect(in) {
-				return false
-			}
-			s := e.InstrStr(in)
-			for _, p := range []string{"call(filepath.Walk)", "call(stage.(*Stage).buildCache)", "call(stage.(*Stage).toCache)", "go call(stage.(*Stage).", "call(stage.(*Stage).process)", "send(", "call(sync.(*WaitGroup).Wait)", "call(os."} {
-				if strings.HasPrefix(s, p) {
-					return true
-				}
-			}
-			return false
-		}
-		res := e.Flow(fn, FlowOpts{Classify: cls, Target: isStep, Sticky: []string{"workers"}})
-		n := e.judge(r, "R06.6", "stage.(*Stage).Recover: step", fn, res, func(l LabelSet) bool { return l.Has("notReady") }, "readiness cleared and not yet restored")
-		r.Min("R06.6", "recovery steps under cleared readiness", n, 6)
-		nr := 0
-		res2 := e.Flow(fn, FlowOpts{Classify: cls, Target: isReturn, Sticky: []string{"workers"}})
-		for in, ws := range res2.At {
-			if in.Block().Comment == "recover" {
-				continue
-			}
-			for _, w := range ws {
-				nr++
-				ok := w.HasAll("notReady", "restoreDeferred") && (!w.Has("workers") || w.Has("waited"))
-				r.Check(ok, "R06.6", fmt.Sprintf("stage.(*Stage).Recover: return b%d %s", in.Block().Index, w.String()), e.InstrPos(in),
-					"Recover can end (and readiness be restored) before its validation workers are done, or without restoring readiness by defer", 1, w.String())
-			}
-		}
-		r.Min("R06.6", "return path classes of Recover", nr, 2)
-	}
+	e.checkRecoverReadiness(r, "R06.6")
 	if fn := needFn(e, r, "R06.6", "stage.(*Stage).Ready"); fn != nil {
 		ok := false
 		Instrs(fn, func(in ssa.Instruction) {
@@ -439,5 +402,48 @@ func rulesC06(e *Engine, r *Report) {
 			}
 		}
 		r.Min("R06.8", "companion removals in package stage", n, 6)
+	}
+}
+
+// checkRecoverReadiness: Recover keeps readiness cleared across every step and
+// restores it only by defer, after its workers are done (shared by C06 and C15).
+func (e *Engine) checkRecoverReadiness(r *Report, rule string) {
+	if fn := needFn(e, r, rule, "stage.(*Stage).Recover"); fn != nil {
+		cls := labeler(
+			I("call(stage.(*Stage).setCanReceive)(p0, false)", "notReady"),
+			IK("call(stage.(*Stage).setCanReceive)(p0, true)", "notReady"),
+			I("defer call(stage.(*Stage).setCanReceive)(p0, true)", "restoreDeferred"),
+			I("go call(stage.(*Stage).Recover$§)(§)", "workers"),
+			I("call(sync.(*WaitGroup).Wait)(§)", "waited"),
+		)
+		isStep := func(in ssa.Instruction) bool {
+			if !hasEffect(in) {
+				return false
+			}
+			s := e.InstrStr(in)
+			for _, p := range []string{"call(filepath.Walk)", "call(stage.(*Stage).buildCache)", "call(stage.(*Stage).toCache)", "go call(stage.(*Stage).", "call(stage.(*Stage).process)", "send(", "call(sync.(*WaitGroup).Wait)", "call(os."} {
+				if strings.HasPrefix(s, p) {
+					return true
+				}
+			}
+			return false
+		}
+		res := e.Flow(fn, FlowOpts{Classify: cls, Target: isStep, Sticky: []string{"workers"}})
+		n := e.judge(r, rule, "stage.(*Stage).Recover: step", fn, res, func(l LabelSet) bool { return l.Has("notReady") }, "readiness cleared and not yet restored")
+		r.Min(rule, "recovery steps under cleared readiness", n, 6)
+		nr := 0
+		res2 := e.Flow(fn, FlowOpts{Classify: cls, Target: isReturn, Sticky: []string{"workers"}})
+		for in, ws := range res2.At {
+			if in.Block().Comment == "recover" {
+				continue
+			}
+			for _, w := range ws {
+				nr++
+				ok := w.HasAll("notReady", "restoreDeferred") && (!w.Has("workers") || w.Has("waited"))
+				r.Check(ok, rule, fmt.Sprintf("stage.(*Stage).Recover: return b%d %s", in.Block().Index, w.String()), e.InstrPos(in),
+					"Recover can end (and readiness be restored) before its validation workers are done, or without restoring readiness by defer", 1, w.String())
+			}
+		}
+		r.Min(rule, "return path classes of Recover", nr, 2)
 	}
 }
